@@ -326,7 +326,7 @@ func c17Gen(rng *gen.Rng, population string) *c17Hist {
 			burst--
 			p = burstPath
 		}
-		render := rng.Pick([]string{"top", "direct", "direct", "direct", "funcparam", "funcglobal", "funcdirect", "nested", "nested", "if", "ifdirect", "for", "fordirect", "shared", "shared", "unused", "elsedirect", "scopes", "reexec", "paramglobal", "untilexists", "nottaken", "multiret"})
+		render := rng.Pick([]string{"top", "direct", "direct", "direct", "funcparam", "funcglobal", "funcdirect", "nested", "nested", "if", "ifdirect", "for", "fordirect", "shared", "shared", "unused", "elsedirect", "scopes", "reexec", "paramglobal", "untilexists", "nottaken", "multiret", "globalupdate"})
 		if inBurst {
 			render = rng.Pick([]string{"direct", "direct", "top"})
 		}
@@ -675,6 +675,7 @@ func (h *c17Hist) render(seed uint64) []*c17Segment {
 		}
 		return tshLit(rng, val)
 	}
+	curPath := "" // the path of the operation being rendered, as the program spells it
 	loopN := 1 // iterations of the for/fordirect rendering of the operation being rendered
 	wrap := func(render string, id int, body string, params [][2]string) string {
 		// params: (name, argument expression); body uses the names
@@ -731,6 +732,23 @@ func (h *c17Hist) render(seed uint64) []*c17Segment {
 			}
 			return fmt.Sprintf("func fi%d(q%d string) string {\nv%d := q%d + \"!\"\nw%d := v%d\nreturn w%d\n}\nfunc fn%d(%s) {\nu%d := fi%d(\"k\")\n%sprint(\"<<N>>\" + u%d)\n}\nfn%d(%s)\n",
 				id, id, id, id, id, id, id, id, strings.Join(ps, ", "), id, id, body, id, id, strings.Join(as, ", "))
+		case "globalupdate":
+			// the path lives in a GLOBAL that a function completes with a compound assignment
+			// (logfile += ".1" in rotate()); the operation then uses the global
+			if len(params[0][1]) > 0 && hoistOK && len(curPath) >= 2 {
+				cut := 1 + rng.Intn(len(curPath)-1)
+				var g strings.Builder
+				fmt.Fprintf(&g, "var gu%d string = %s\nfunc fn%d(gx%d string) {\ngu%d += gx%d\n}\nfn%d(%s)\n", id, tshLit(rng, curPath[:cut]), id, id, id, id, id, tshLit(rng, curPath[cut:]))
+				for _, p := range params[1:] {
+					fmt.Fprintf(&g, "%s := %s\n", p[0], p[1])
+				}
+				return g.String() + strings.ReplaceAll(body, params[0][0], fmt.Sprintf("gu%d", id))
+			}
+			var g strings.Builder
+			for _, p := range params {
+				fmt.Fprintf(&g, "%s := %s\n", p[0], p[1])
+			}
+			return g.String() + body
 		case "nottaken":
 			// the operation stands where control never goes: it must NOT happen (the model skips it)
 			var g strings.Builder
@@ -936,6 +954,7 @@ func (h *c17Hist) render(seed uint64) []*c17Segment {
 					fmt.Fprintf(&sb, "fl%d := %s\nshw(%s, %s, fl%d)\n", id, cond, pe, ce, id)
 				}
 			} else {
+				curPath = op.spelled()
 				selfContained := func(o string) bool { return o == "literal" || o == "call" || o == "" }
 				hoistOK = selfContained(op.POrigin) && selfContained(op.COrigin) && op.Kind != "appendVar"
 				loopN = 1
@@ -1202,6 +1221,11 @@ func c17RunX(r *Run, h *c17Hist, seed uint64, st *c17Stats, harvest *[]string) (
 	for i, s := range segs {
 		cases[i] = simrt.Case{World: simrt.WorldSpec{Files: []simrt.FileSpec{{Path: "/sim/m/main.tsh", Data: []byte(s.Program)}, {Path: "/sim/x/tsh", Data: []byte("ELF")}}, Cwd: "/sim/m", Exe: "/sim/x/tsh"},
 			Path: "/sim/m/main.tsh", Target: "bash", ReturnScript: true}
+		// every third history: the transpiler object has just emitted the same program for the
+		// other target (tsh -i x.tsh -t batch -t bash, the README's first command)
+		if seed%3 == 0 {
+			cases[i].Warmup = []string{"batch"}
+		}
 	}
 	res, err := r.Env.RunCases(cases)
 	if err != nil {
